@@ -253,9 +253,24 @@ def run_case(case):
             else:
                 md = manager_dict(kind, proj, base, copy.deepcopy(scenarios), True)
                 b.register_scenario_manager({sm: md})
-        elif channel in ("file", "two-files", "two-files-rev"):
+        elif channel in ("file", "two-files", "two-files-rev", "file-edit-reset"):
             md = manager_dict(kind, proj, base, copy.deepcopy(scenarios), True)
-            if channel == "file":
+            if channel == "file-edit-reset":
+                # the file first holds OTHER base values and another s1; it is loaded and run, then edited, then bptk.reset_scenario
+                # ("reload a scenario from its file"): the scenarios run with what the file holds now
+                old_md = copy.deepcopy(md)
+                old_md["base_constants"] = {"k": 9.0, "k2": 0.75}
+                old_md["base_points"] = {("g" if kind == "xmile" else "lk"): [[0.0, 7.0], [8.0, 7.0]]}
+                old_md["scenarios"]["s1"] = {"constants": {"k2": 4.0}}
+                with open(os.path.join(proj.dir, "scenarios", "a.json"), "w") as f:
+                    json.dump({sm: old_md}, f)
+                b = core.new_bptk_here()
+                b.run_scenarios(scenarios=["s1", "s0"], scenario_managers=[sm], equations=list(eqs), return_format="df")
+                with open(os.path.join(proj.dir, "scenarios", "a.json"), "w") as f:
+                    json.dump({sm: md}, f)
+                b.reset_scenario(scenario_manager=sm, scenario="s1")
+                channel = "file"
+            elif channel == "file":
                 with open(os.path.join(proj.dir, "scenarios", "a.json"), "w") as f:
                     json.dump({sm: md}, f)
             else:
@@ -272,7 +287,8 @@ def run_case(case):
                     json.dump({sm: first}, f)
                 with open(os.path.join(proj.dir, "scenarios", fb), "w") as f:
                     json.dump({sm: second}, f)
-            b = core.new_bptk_here()
+            if b is None:
+                b = core.new_bptk_here()
         elif channel in ("session", "session+regrs", "rest", "session-after-run", "rest-after-run", "export", "repeat-points", "rest-after-run+unknown-scenario-before", "rest-after-run+unknown-scenario-behind",
                          "rest-after-run+unknown-manager-before", "rest-after-run+unknown-manager-behind"):
             b = core.new_bptk_here()
@@ -414,7 +430,7 @@ def cases(tier):
     out = []
     for setting in ("none", "const", "dt", "stop", "start", "start-neg", "points"):
         out.append(("dsl", "session+regrs", "nobase", setting))
-    for channel in ("dict", "register_model", "file", "two-files", "two-files-rev", "session", "rest", "session-after-run", "rest-after-run", "export", "repeat-points",
+    for channel in ("dict", "register_model", "file", "file-edit-reset", "two-files", "two-files-rev", "session", "rest", "session-after-run", "rest-after-run", "export", "repeat-points",
                     "rest-after-run+unknown-scenario-before", "rest-after-run+unknown-scenario-behind",
                     "rest-after-run+unknown-manager-before", "rest-after-run+unknown-manager-behind"):
         for base in BASES:
